@@ -89,6 +89,7 @@ func tokOwnerRank(c *Chain, bech string) int64 {
 // mint:     A = [sender kind, symbol index, receiver, amount]
 // burn:     A = [holder, symbol index, amount (0: everything)]
 // handover: A = [sender kind, symbol index, recipient]
+// setparams: A = [variant, symbol index], MsgUpdateParams by the authority (see Apply)
 func (tokenMod) Gen(r *lib.Rand, tier string) []Step {
 	n := 4 + r.Intn(10)
 	if tier == "thorough" {
@@ -111,6 +112,10 @@ func (tokenMod) Gen(r *lib.Rand, tier string) []Step {
 		}
 	}
 	for i := 0; i < n; i++ {
+		if i >= 2 && r.Chance(1, 20) {
+			out = append(out, Step{M: "token", Op: "setparams", A: []int64{int64(r.Intn(2)), int64(r.Intn(len(tokSymbols)))}})
+			continue
+		}
 		w := r.Weighted(4, 2, 3, 3, 2, 1)
 		if i < 2 {
 			w = 0
@@ -230,6 +235,20 @@ func (m tokenMod) Apply(x *X, st Step) string {
 		if o.OK() {
 			s.handedOver = true
 		}
+		return o.Kind
+	case "setparams":
+		// MsgUpdateParams by the authority (the gov module account); A = [variant, symbol index]:
+		// 0 another tax rate and mint fee ratio (harmless); 1 the issue fee is denominated in the symbol of the
+		// universe with that index, issued or not (an unissued one is refused since the fix; before it the export was un-importable)
+		p := a.Token.GetParams(a.Ctx)
+		switch st.A[0] % 2 {
+		case 0:
+			p.TokenTaxRate = sdkmath.LegacyNewDecWithPrec(25, 2)
+			p.MintTokenFeeRatio = sdkmath.LegacyNewDecWithPrec(5, 2)
+		case 1:
+			p.IssueTokenBaseFee = sdk.NewCoin(tokSymbols[int(st.A[1])%len(tokSymbols)], p.IssueTokenBaseFee.Amount)
+		}
+		o := a.Deliver(&tokenv1.MsgUpdateParams{Authority: lib.ModuleAddr("gov").String(), Params: p})
 		return o.Kind
 	}
 	return "rej"
